@@ -271,6 +271,17 @@ def classify_one(crate, b, evs):
             if L in (("field", src, "length"),) or (is_call(L, "len") and L[3] == (src,)):
                 return Writer(b, "COPY", True, "field-wise copy of %s" % show(src))
             return Writer(b, "COPY", False, "copies the words of %s but stores length %s" % (show(src), show(a.length)))
+        # copy of the used words only: x.data[..cap(x.length)].into() / to_vec(): equal in value under the invariant
+        for x in walk(d):
+            if is_call(x, ("index",)) and len(x[3]) == 2 and x[3][0][0] == "field" and x[3][0][2] == "data":
+                srcv = x[3][0][1]
+                rng = x[3][1]
+                hi = rng[3][-1] if rng[0] == "agg" and rng[3] else None
+                if hi is not None and cap_arg(hi) == ("field", srcv, "length") and (
+                        rng[1].startswith("RangeTo") or (rng[1].startswith("Range") and rng[3][0] == ("int", 0))):
+                    L = a.length
+                    if L == ("field", srcv, "length") or (is_call(L, "len") and L[3] == (srcv,)):
+                        return Writer(b, "COPY", True, "copy of the used words of %s (cap(len) words) with its length" % show(srcv))
         if d[0] == "param" and a.length[0] == "param":
             return Writer(b, "CTOR", False,
                           "trusted constructor: stores caller-supplied words without masking them to `length`",
@@ -299,6 +310,11 @@ def classify_one(crate, b, evs):
     k6 = check_k6(crate, b, writes, aggs, lens, dstores)
     if k6 is not None:
         return k6
+
+    # ---- REALLOC: verbatim copy of the old words into fresh zeroed storage that replaces self.data ----
+    ra = check_realloc(b, writes, aggs, dstores, lens)
+    if ra is not None:
+        return ra
 
     # ---- K5 table --------------------------------------------------------------------------------
     kk = writer_kind_key(b)
@@ -470,6 +486,40 @@ def check_k6(crate, b, writes, aggs, lens, dstores):
     if not okL:
         return Writer(b, "K6", False, "copies masked words of %s but stores length %s" % (show(src), show(L)))
     return Writer(b, "K6", True, "words from the length-masked accessor of `%s`, length = its length" % name)
+
+
+def check_realloc(b, writes, aggs, dstores, lens):
+    """reallocation helpers: `let mut n = vec![0; k]; n[..j].copy_from_slice(&self.data[..j]) / n[i] = self.data[i];
+    self.data = n.into_boxed_slice()` - value-preserving whatever k and j are (j <= both lengths is bounds-checked)"""
+    if aggs or lens or len(dstores) != 1 or not writes:
+        return None
+    ds = dstores[0]
+    if ds.obj != ("param", "self"):
+        return None
+    v = ds.value
+    if is_call(v, "into_boxed_slice") and v[3]:
+        v = v[3][0]
+    if v[0] != "var" or len(v) < 3:
+        return None
+    init = b.init_expr(v[2])
+    if init is None or not storage.is_zero_data(init):
+        return None
+    sd = ("field", ("param", "self"), "data")
+    for w in writes:
+        if w.obj != v:
+            return None
+        if w.how == "assign":
+            if not (w.value[0] == "index" and w.value[1] == sd and w.value[2] == w.index):
+                return None
+        elif w.how == "call:copy_from_slice":
+            tgt, src = w.target, (w.value[0] if w.value else None)
+            rng_t = tgt[3][1] if is_call(tgt, "index_mut") and len(tgt[3]) == 2 else None
+            rng_s = src[3][1] if src is not None and is_call(src, "index") and len(src[3]) == 2 and src[3][0] == sd else None
+            if rng_t is None or rng_s is None or rng_t != rng_s:
+                return None
+        else:
+            return None
+    return Writer(b, "REALLOC", True, "verbatim copy of the old words into fresh zeroed storage that replaces self.data")
 
 
 def check_k5_conjuncts(crate, b, kk, evs, writes, aggs, dstores, lens):
